@@ -171,7 +171,7 @@ def run_coq_shards(prop, header, items, footer_fn, shard_size=400, timeout=900, 
     running = []
 
     def launch(k):
-        name = "%s_%s_%d_%d" % (prop, tag, os.getpid(), k)
+        name = "%s_%s_%d_%d" % (prop, re.sub(r"[^A-Za-z0-9_]", "_", tag), os.getpid(), k)
         path = os.path.join(WORK, "cases", name + ".v")
         with open(path, "w", encoding="utf-8") as f:
             f.write("From Coq Require Import Uint63 Floats.\n" + header + "\n")
